@@ -1,1 +1,67 @@
-fn main() { eprintln!("stub"); }
+//! lsp_tools: runtime monitors for the isograph language server (C21, C22, C23).
+//!   lsp_tools session   --seed S --count N [--start I] --work DIR   (C21)
+//!   lsp_tools format    --seed S --count N [--start I] --work DIR   (C22)
+//!   lsp_tools positions --seed S --count N [--start I] --work DIR   (C23)
+//! Each prints one JSON report line on stdout.
+mod ast;
+mod common;
+mod drive;
+mod format_check;
+mod generate;
+mod pos;
+mod positions_check;
+mod rng;
+mod session;
+
+fn main() {
+    let argv: Vec<String> = std::env::args().skip(1).collect();
+    if argv.is_empty() {
+        eprintln!("usage: lsp_tools session|format|positions --seed S --count N [--start I] --work DIR");
+        std::process::exit(64);
+    }
+    // the server code prints through eprintln!/panic hooks; keep stderr quiet unless asked
+    if std::env::var_os("LSP_TOOLS_VERBOSE").is_none() {
+        std::panic::set_hook(Box::new(|_| {}));
+    }
+    let args = common::Args::parse(&argv[1..]);
+    let report = match argv[0].as_str() {
+        "session" => session::run(&args),
+        "format" => format_check::run(&args),
+        "positions" => positions_check::run(&args),
+        "noop" => serde_json::json!({"tool": "noop"}),
+        "dump" => dump(&args),
+        other => {
+            eprintln!("unknown subcommand {other}");
+            std::process::exit(64);
+        }
+    };
+    println!("{report}");
+}
+
+/// Debug / replay aid: start a server in --dir, print all diagnostics and, when
+/// given, the answers for --file at --line/--col.
+fn dump(args: &common::Args) -> serde_json::Value {
+    use prelude::ErrClone;
+    let dir = std::path::PathBuf::from(args.str("dir", "."));
+    let mut s = match drive::Server::start(&dir) {
+        Ok(s) => s,
+        Err(e) => return serde_json::json!({"error": e}),
+    };
+    let all: Vec<String> = isograph_schema::validate_entire_schema(&s.state.compiler_state.db)
+        .clone_err()
+        .err()
+        .unwrap_or_default()
+        .iter()
+        .map(|d| format!("{:?} @ {:?}", d.0.message, d.0.location))
+        .collect();
+    let published = s.tick();
+    let mut out = serde_json::json!({"diagnostics": all, "published": format!("{published:?}")});
+    if let Some(f) = args.m.get("file") {
+        let (l, c) = (args.u64("line", 0) as u32, args.u64("col", 0) as u32);
+        out["hover"] = s.hover(f, l, c);
+        out["definition"] = s.definition(f, l, c);
+        out["tokens"] = s.semantic_tokens(f);
+        out["formatting"] = s.formatting(f);
+    }
+    out
+}
